@@ -60,6 +60,9 @@ func classify(sc *Scenario, r Result) (bool, []string) {
 	if r.Backpressure {
 		cl = append(cl, "back-pressure-seen")
 	}
+	if sc.Prefill > 0 {
+		cl = append(cl, "input-prefilled-before-stage-created")
+	}
 	cancel, inBatch := hasCancel(sc.Script)
 	if cancel {
 		cl = append(cl, "script-cancels")
